@@ -21,11 +21,11 @@ ASSUMPTIONS = ["sessions of one station do not overlap (generator guarantees it)
                "tie order inside one (timestamp, precedence) class is not constrained"]
 PREC = {"Unplug": 0, "Plugin": 1, "Recompute": 2, "Event": 3}
 
-PROFILE = world.profile(second_life=0.15, stations=(1, 8), faults={"crash": 0.5}, resume_modes=["rerun", "rerun", "json_str", "json_file"], custom_events=0.2,
+PROFILE = world.profile(zero_demand=0.05, second_life=0.15, stations=(1, 8), faults={"crash": 0.5}, resume_modes=["rerun", "rerun", "json_str", "json_file"], custom_events=0.2,
                         party={"scripted": 4, "uncontrolled": 2, "greedy": 2, "rr": 1})
 
 
-P_STOCH = world.profile(net="stochastic", stations=(1, 4), faults={"crash": 0.8}, resume_modes=["rerun", "json_str", "json_file"],
+P_STOCH = world.profile(zero_demand=0.1, net="stochastic", stations=(1, 4), faults={"crash": 0.8}, resume_modes=["rerun", "json_str", "json_file"],
                         party={"scripted": 2, "uncontrolled": 3, "greedy": 2}, evse_kinds={"cont": 3, "finite": 2}, stoch_early=0.3)
 
 
